@@ -529,7 +529,7 @@ func (s *Translator) Exit(expression cypher.SyntaxNode) {
 		// Rewrite the order by constraints
 		if lookupExpression, err := s.treeTranslator.PopOperand(); err != nil {
 			s.SetError(err)
-		} else if err := RewriteFrameBindings(s.scope, lookupExpression); err != nil {
+		} else if lookupExpression, err = rewriteSortKeyFrameBindings(s.scope, lookupExpression); err != nil {
 			s.SetError(err)
 		} else if isConstantSortKey(lookupExpression) {
 			// A constant sort key orders nothing in Cypher. In SQL a bare integer constant in ORDER BY is an
@@ -701,6 +701,26 @@ func (s *Translator) Exit(expression cypher.SyntaxNode) {
 			s.SetError(err)
 		}
 	}
+}
+
+// rewriteSortKeyFrameBindings rewrites the references of a sort key to the frames that materialized them. The
+// rewriter replaces a reference in place in its parent, so a key that is a reference itself - id(n) translates
+// to the compound identifier n0.id, toString(id(n)) to a cast of it - is handed over inside an ORDER BY item, its
+// parent in the final statement.
+func rewriteSortKeyFrameBindings(scope *Scope, sortKey pgsql.Expression) (pgsql.Expression, error) {
+	switch sortKey.(type) {
+	case pgsql.CompoundIdentifier, pgsql.TypeCast:
+	default:
+		return sortKey, RewriteFrameBindings(scope, sortKey)
+	}
+
+	orderBy := &pgsql.OrderBy{Expression: sortKey}
+
+	if err := RewriteFrameBindings(scope, orderBy); err != nil {
+		return nil, err
+	}
+
+	return orderBy.Expression, nil
 }
 
 // isConstantSortKey reports whether a translated sort key is what PostgreSQL's grammar folds into a bare
